@@ -8,12 +8,13 @@ import (
 // knownFindings: entries of /verif/known_findings.json for one property.
 // The file is only ever read here.
 type knownEntry struct {
-	ID       string `json:"id"`
-	Property string `json:"property"`
-	Status   string `json:"status"` // "finding" | "fixed"
-	What     string `json:"what"`
-	Match    string `json:"match"` // name of a match predicate implemented in the harness
-	Probe    any    `json:"probe"`
+	ID       string   `json:"id"`
+	Property string   `json:"property"`
+	Status   string   `json:"status"` // "finding" | "fixed"
+	What     string   `json:"what"`
+	Match    string   `json:"match"` // name of a match predicate implemented in the harness
+	Probe    any      `json:"probe"`
+	Also     []string `json:"also"`
 }
 
 type knownFindings struct {
@@ -33,7 +34,13 @@ func loadKnown(path, prop string) *knownFindings {
 		return k
 	}
 	for _, e := range doc.Findings {
-		if e.Property == prop && e.Status == "finding" {
+		applies := e.Property == prop
+		for _, a := range e.Also {
+			if a == prop {
+				applies = true
+			}
+		}
+		if applies && e.Status == "finding" {
 			k.entries = append(k.entries, e)
 		}
 	}
